@@ -7,6 +7,9 @@ import struct
 import traceback
 
 PID = "C26"
+# Not registered in MANIFEST.json: the two "str" shards of the quick tier did not terminate (20 min CPU, 0.8 GB, inside
+# Z3 string solving) when tried on 2026-09-22; unfinished work, C26 is not claimed.
+REGISTERED = False
 LEVEL = "exploration"
 RULE = (
     "cases: constraint sets that pin or bound an expression near a boundary value of its sort - bitvectors of width "
